@@ -136,4 +136,89 @@ theorem suspend_suspended (v : String → Bool) (w : SSt) (h : w.suspended = tru
 theorem close_closed (v : String → Bool) (w : SSt) (h : w.closed = true) : interpS v 64 close w = w :=
   interpS_returnsEarly v "closed" w (by simpa [guardEnv] using h) close 64 (by decide +kernel) (by decide +kernel)
 
+/-! ### A function that returns on an I/O error before it writes anything (round 4: `Resume`) -/
+
+/-- Up to its `return` under the guard `expr:err != nil`, the statement list has no statement with output
+    or with an effect on Vaxis's flags: locks, defers, statements without effect, `err := vx.openTty(tgts)`
+    (which at most installs a new writer), calls of functions that write nothing; earlier returns under
+    other guards may or may not be taken. -/
+def quietUntilErr : List S → Bool
+  | [] => false
+  | .other g src :: rest =>
+      if src.startsWith "return" then (g == .v "expr:err != nil") || quietUntilErr rest
+      else (neutralOther src || src == "err := vx.openTty(tgts)") && quietUntilErr rest
+  | .call _ f :: rest => decide (f ≠ "HideCursor") && (table f).isNone && quietUntilErr rest
+  | .deferCall _ :: rest => quietUntilErr rest
+  | _ => false
+
+/-- What such a prefix leaves alone. -/
+def Quiet (w w' : SSt) : Prop := w'.wire = w.wire ∧ w'.buf = w.buf ∧ w'.suspended = w.suspended ∧ w'.closed = w.closed
+
+theorem guardEnv_err (v : String → Bool) (w : SSt) : guardEnv v w "expr:err != nil" = v "expr:err != nil" := by
+  have h1 : ("expr:err != nil" = "closed") = False := by decide
+  have h2 : ("expr:err != nil" = "suspended") = False := by decide
+  simp only [guardEnv, h1, h2, if_false]
+
+theorem interpS_quietUntilErr (v : String → Bool) (w : SSt) (herr : v "expr:err != nil" = true) :
+    ∀ (l : List S) (fuel : Nat), quietUntilErr l = true → l.length ≤ fuel → Quiet w (interpS v fuel l w) := by
+  intro l
+  induction l generalizing w with
+  | nil => intro fuel h; simp [quietUntilErr] at h
+  | cons s rest ih =>
+    intro fuel h hlen
+    cases fuel with
+    | zero => simp at hlen
+    | succ n =>
+      have hlen' : rest.length ≤ n := by simpa using hlen
+      cases s with
+      | other g src =>
+        simp only [quietUntilErr] at h
+        by_cases hr : src.startsWith "return" = true
+        · simp only [hr, if_true, Bool.or_eq_true, beq_iff_eq] at h
+          by_cases hg : evalV (guardEnv v w) g = true
+          · rw [interpS_return v n g src rest w hr hg]; exact ⟨rfl, rfl, rfl, rfl⟩
+          · rcases h with h | h
+            · subst h
+              exact absurd (by simp [evalV, guardEnv_err, herr]) hg
+            · rw [interpS]
+              have hg' : evalV (guardEnv v w) g = false := by simpa using hg
+              simp only [hr, hg', Bool.and_false, Bool.false_eq_true, if_false, Bool.not_false, if_true]
+              exact ih w n h hlen'
+        · simp only [hr, Bool.false_eq_true, if_false, Bool.and_eq_true, Bool.or_eq_true, beq_iff_eq] at h
+          obtain ⟨hn, hrest⟩ := h
+          have hr' : src.startsWith "return" = false := by simpa using hr
+          rcases hn with hn | hn
+          · simp only [neutralOther, Bool.and_eq_true, Bool.not_eq_true', decide_eq_true_eq] at hn
+            obtain ⟨⟨⟨⟨⟨⟨h0, h1⟩, h2⟩, h3⟩, h4⟩, h5⟩, h6⟩ := hn
+            rw [interpS]
+            simp only [h0, Bool.false_and, Bool.false_eq_true, if_false, h1, h2, h3, h4, h5, h6, ite_self]
+            exact ih w n hrest hlen'
+          · subst hn
+            rw [interpS]
+            simp only [hr', Bool.false_and, Bool.false_eq_true, if_false]
+            have e1 : ("err := vx.openTty(tgts)" = "_, col := vx.CursorPosition()") = False := by decide
+            have e2 : ("err := vx.openTty(tgts)" = "vx.cursorLast.style = vx.userCursorStyle") = False := by decide
+            simp only [e1, e2, if_false, if_true]
+            split
+            · exact ih w n hrest hlen'
+            · have := ih { w with fresh := true } n hrest hlen'
+              exact ⟨this.1, this.2.1, this.2.2.1, this.2.2.2⟩
+      | call g f =>
+        simp only [quietUntilErr, Bool.and_eq_true, decide_eq_true_eq, Option.isNone_iff_eq_none] at h
+        obtain ⟨⟨hf, ht⟩, hrest⟩ := h
+        rw [interpS]
+        simp only [Bool.false_eq_true, if_false, hf, ht]
+        have : (if (!evalV (guardEnv v w) g) = true then w else w) = w := by split <;> rfl
+        rw [this]
+        exact ih w n hrest hlen'
+      | deferCall f =>
+        simp only [quietUntilErr] at h
+        rw [interpS]
+        simp only [Bool.false_eq_true, if_false]
+        exact ih w n h hlen'
+      | write g x => simp [quietUntilErr] at h
+      | writeF g x => simp [quietUntilErr] at h
+      | direct g x => simp [quietUntilErr] at h
+      | flush g => simp [quietUntilErr] at h
+
 end VaxisModel.Lemmas.C04Interp
